@@ -194,6 +194,9 @@ func decJob(e encoded, want []byte, class string, chunking string, alt int, lean
 		if chunking != "" {
 			opts += " " + chunking
 		}
+		if (e.codec == "lzma" || e.codec == "xz") && !strings.Contains(opts, "work=") {
+			opts += " work=" + bigWork // like upstream's example/mzcat: a work buffer big enough for the preset
+		}
 		var got bytes.Buffer
 		status := "ok"
 		rest := e.data
@@ -232,6 +235,31 @@ func decJob(e encoded, want []byte, class string, chunking string, alt int, lean
 		}
 		replay := fmt.Sprintf("payload class: %s (%d bytes)\nencoder: %s %s\nflavour: %s\ncdrv: %s\npayload: %s", class, len(want), e.codec, e.setting, fl, trunc(lastCmd, 400000), trunc(hlib.Hex(want), 100000))
 		key := e.codec + ":" + strings.Fields(e.setting + " x")[0]
+		if (e.codec == "lzma" || e.codec == "xz") && (status != "ok" || !bytes.Equal(got.Bytes(), want)) {
+			// Two known defects of std/lzma are keyed by their cause (see KNOWN_FINDINGS.txt): re-run the same
+			// stream without the triggering condition; only if it then decodes correctly is the cause confirmed.
+			rerun := func(o string) bool {
+				c2 := strings.Join(strings.Fields(fmt.Sprintf("run %s %s digest=0 maxout=268435456 %s", e.codec, o, hlib.Hex(e.data))), " ")
+				_, r2 := runCmd(d, c2)
+				if r2 == nil || r2.Status != "ok" {
+					return false
+				}
+				b, _ := hex.DecodeString(strings.TrimPrefix(r2.OutHex, "-"))
+				return bytes.Equal(b, want)
+			}
+			if strings.Contains(opts, "work=auto") && status == "#base:_bad_workbuf_length" && rerun(strings.Replace(opts, "work=auto", "work="+bigWork, 1)) {
+				cr.fails = append(cr.fails, hlib.Failure{Key: "decode:lzma-family:lazy-workbuf:bad-workbuf-length",
+					Desc: fmt.Sprintf("Wuffs %s (%s): a caller that sizes the work buffer from workbuf_len() and grows it on `$short workbuf` gets `#base: bad workbuf length` on a valid stream (%s, payload %s %d bytes): std/lzma writes output (LZMA2 uncompressed chunk / header split across reads) before it ever reports `$short workbuf`; the same stream decodes correctly with a large work buffer", e.codec, fl, e.setting, class, len(want)), Replay: replay})
+				cr.counts = append(cr.counts, "known:lazy-workbuf")
+				return cr
+			}
+			if strings.Contains(opts, "src=") && rerun(dropSrcOpt(opts)) {
+				cr.fails = append(cr.fails, hlib.Failure{Key: "decode:lzma-family:unflushed-dst-far-match",
+					Desc: fmt.Sprintf("Wuffs %s (%s) on a valid stream (%s, payload %s %d bytes) ends with %s / wrong bytes when the source arrives in chunks (%s): after a `$short read` the destination buffer still holds bytes of earlier calls, and a match reaching before the start of that buffer is fetched from the wrong place of the workbuf ring (std/lzma lacks the `transformed_history_count - dst.history_position()` correction that std/deflate has); the same stream decodes correctly when supplied in one piece", e.codec, fl, e.setting, class, len(want), status, chunking), Replay: replay})
+				cr.counts = append(cr.counts, "known:unflushed-dst-far-match")
+				return cr
+			}
+		}
 		if status != "ok" {
 			cr.fails = append(cr.fails, hlib.Failure{Key: "decode-status:" + key + ":" + status,
 				Desc: fmt.Sprintf("Wuffs %s (%s) decoding a valid %s stream (%s, payload %s %d bytes) ends with status %s", e.codec, fl, e.codec, e.setting, class, len(want), status), Replay: replay})
@@ -265,6 +293,19 @@ func decJob(e encoded, want []byte, class string, chunking string, alt int, lean
 		cr.nontriv = append(cr.nontriv, fmt.Sprintf("dec|%s|%s|%s|%d|%s", e.codec, e.setting, class, len(want), chunking))
 		return cr
 	}
+}
+
+// bigWork: dictionary of `xz -6` (8 MiB) + 273, rounded up
+const bigWork = "8389120"
+
+func dropSrcOpt(opts string) string {
+	var out []string
+	for _, f := range strings.Fields(opts) {
+		if !strings.HasPrefix(f, "src=") {
+			out = append(out, f)
+		}
+	}
+	return strings.Join(out, " ")
 }
 
 func firstDiff(a, b []byte) int {
@@ -306,7 +347,7 @@ func imgJob(codec string, file []byte, origin string, pixfmt string, want []byte
 			d = w.generic
 		}
 		fl := string(d.Flavour)
-		cmd := strings.Join(strings.Fields(fmt.Sprintf("run %s pixfmt=%s digest=0 %s %s", codec, pixfmt, chunking, hlib.Hex(file))), " ")
+		cmd := strings.Join(strings.Fields(fmt.Sprintf("run %s pixfmt=%s digest=0 maxframes=4096 %s %s", codec, pixfmt, chunking, hlib.Hex(file))), " ")
 		line, res := runCmd(d, cmd)
 		replay := fmt.Sprintf("image: %s\nflavour: %s\ncdrv: %s", origin, fl, trunc(cmd, 400000))
 		key := codec + ":" + strings.Fields(origin + " x")[0]
@@ -331,6 +372,9 @@ func imgJob(codec string, file []byte, origin string, pixfmt string, want []byte
 			return cr
 		}
 		got, _ := hex.DecodeString(strings.TrimPrefix(res.OutHex, "-"))
+		// a fully transparent non-premultiplied pixel has no observable colour: Go keeps the file's
+		// colour (e.g. the tRNS key), Wuffs writes zeros; compare them as equal
+		got, want := zeroTransparent(got, pixfmt), zeroTransparent(want, pixfmt)
 		if !bytes.Equal(got, want) {
 			i := firstDiff(got, want)
 			bpp := len(pixfmt) / 2 // 4 for 8-bit BGRA; the 16-bit format has 8 bytes per pixel
@@ -349,6 +393,24 @@ func imgJob(codec string, file []byte, origin string, pixfmt string, want []byte
 		}
 		return cr
 	}
+}
+
+func zeroTransparent(b []byte, pixfmt string) []byte {
+	out := append([]byte{}, b...)
+	if pixfmt == pixfmtBGRA16 {
+		for i := 0; i+8 <= len(out); i += 8 {
+			if out[i+6] == 0 && out[i+7] == 0 {
+				copy(out[i:i+6], []byte{0, 0, 0, 0, 0, 0})
+			}
+		}
+	} else {
+		for i := 0; i+4 <= len(out); i += 4 {
+			if out[i+3] == 0 {
+				out[i], out[i+1], out[i+2] = 0, 0, 0
+			}
+		}
+	}
+	return out
 }
 
 func around(b []byte, i int) string {
@@ -535,7 +597,15 @@ func main() {
 					skipped[t.codec]++
 					continue
 				}
-				addDec(encoded{codec: t.codec, setting: "tool=" + t.name + " " + strings.Join(t.args[1:], " "), data: out}, p, chunkOpt(tr))
+				ch := chunkOpt(tr)
+				if t.codec != "bzip2" && (pi%5 == 0 || p.class == "incompressible-40k") {
+					ch = strings.TrimSpace(ch + " work=auto") // the lazy work-buffer protocol
+				}
+				addDec(encoded{codec: t.codec, setting: "tool=" + t.name + " " + strings.Join(t.args[1:], " "), data: out}, p, ch)
+				if t.codec != "bzip2" && strings.Contains(ch, "src=") {
+					// the same stream in one piece (the chunked run meets a known std/lzma defect)
+					addDec(encoded{codec: t.codec, setting: "tool=" + t.name + " " + strings.Join(t.args[1:], " "), data: out}, p, dropSrcOpt(ch))
+				}
 			}
 		}
 	}
